@@ -540,3 +540,49 @@ M('c16-x2c-case', 'C16', 'src/internal/qinternal.c',
   "    digit += (hex_low >= 'A' ? ((hex_low & 0xdf) - 'A') + 10 : hex_low - '0');",
   "    digit += (hex_low >= 'A' ? (hex_low - 'A') + 10 : hex_low - '0');",
   'TB14', '_q_x2c', 'lower-case low digit not folded')
+
+# ---- wave 5 rules ------------------------------------------------------------------------------
+M('c05-head-order', 'C05', 'src/containers/qhashtbl.c',
+  "        if (tbl->slots[idx] != NULL) {\n            // insert at the beginning\n            obj->next = tbl->slots[idx];\n        }\n        tbl->slots[idx] = obj;",
+  "        tbl->slots[idx] = obj;\n        if (tbl->slots[idx] != NULL) {\n            // insert at the beginning\n            obj->next = tbl->slots[idx];\n        }",
+  'S4', 'qhashtbl_put', 'head overwritten before the new node received the old head')
+M('c05-cursor-hash', 'C05', 'src/containers/qhashtbl.c',
+  "        obj->hash = cursor->hash;\n        obj->size = cursor->size;\n        obj->next = cursor->next;",
+  "        obj->size = cursor->size;\n        obj->next = cursor->next;",
+  'S5', 'qhashtbl_getnext', 'cursor keeps the hash of the previous entry: the walk resumes in the wrong slot')
+M('c05-clear-slot', 'C05', 'src/containers/qhashtbl.c',
+  "        qhashtbl_obj_t *obj = tbl->slots[idx];\n        tbl->slots[idx] = NULL;\n        while (obj != NULL) {",
+  "        qhashtbl_obj_t *obj = tbl->slots[idx];\n        while (obj != NULL) {",
+  'S6', 'qhashtbl_clear', 'slot keeps pointing at the freed chain')
+M('c05-get-hash-only', 'C05', 'src/containers/qhashtbl.c',
+  "    qhashtbl_obj_t *obj;\n    for (obj = tbl->slots[idx]; obj != NULL; obj = obj->next) {\n        if (obj->hash == hash && !strcmp(obj->name, name)) {\n            break;\n        }\n    }\n\n    void *data = NULL;",
+  "    qhashtbl_obj_t *obj;\n    for (obj = tbl->slots[idx]; obj != NULL; obj = obj->next) {\n        if (obj->hash == hash) {\n            break;\n        }\n    }\n\n    void *data = NULL;",
+  'S2', 'qhashtbl_get', 'colliding keys taken for one')
+M('c15-fixup-bypass', 'C15', 'src/containers/qtreetbl.c',
+  "    // fix right-leaning reds on the way up\n    if (is_red(obj->right) && !is_red(obj->left)) {",
+  "    if (errno == ENOMEM) {\n        return obj;\n    }\n    // fix right-leaning reds on the way up\n    if (is_red(obj->right) && !is_red(obj->left)) {",
+  'A5', 'put_obj', 'way-up fix-ups skipped on the failure status')
+M('c11-free-before-copy', 'C11', 'src/containers/qtreetbl.c',
+  "        void *copydata = qmemdup(data, datasize);\n        if (copydata != NULL || data == NULL || datasize == 0) {\n            free(obj->data);",
+  "        free(obj->data);\n        void *copydata = qmemdup(data, datasize);\n        if (copydata != NULL || data == NULL || datasize == 0) {",
+  'M3', 'put_obj', 'old value released before the copy is taken from a caller pointer that may alias it')
+M('c11-hasharr-guard', 'C11', 'src/containers/qhasharr.c',
+  "        if (maxslots < 1 || memsize <= sizeof(qhasharr_t)) {", "        if (maxslots < 1) {",
+  'I9', 'qhasharr', 'only guard against the unsigned wrap dropped')
+M('c07-hasharr-guard', 'C07', 'src/containers/qhasharr.c',
+  "        if (maxslots < 1 || memsize <= sizeof(qhasharr_t)) {", "        if (maxslots < 1) {",
+  'I9', 'qhasharr', 'only guard against the unsigned wrap dropped')
+M('c13-getint-borrow', 'C13', 'src/containers/qhashtbl.c',
+  "    char *str = qhashtbl_getstr(tbl, name, true);\n    if (str != NULL) {\n        num = atoll(str);\n        free(str);\n    }",
+  "    const char *str = qhashtbl_getstr(tbl, name, false);\n    if (str != NULL) {\n        num = atoll(str);\n    }",
+  'B-guard', 'qhashtbl_getint', 'value parsed through a borrowed pointer after the lock was released')
+M('c13-plain-mutex', 'C13', 'src/containers/qvector.c',
+  "        Q_MUTEX_NEW(vector->qmutex, true);", "        Q_MUTEX_NEW(vector->qmutex, false);",
+  'B-recursive', 'qvector', 'non-recursive mutex under a user-visible lock')
+M('c14-plain-mutex', 'C14', 'src/containers/qtreetbl.c',
+  "        Q_MUTEX_NEW(tbl->qmutex, true);", "        Q_MUTEX_NEW(tbl->qmutex, false);",
+  'A-recursive', 'qtreetbl', 'non-recursive mutex under a user-visible lock')
+M('c12-strndup-key', 'C12', 'src/containers/qtreetbl.c',
+  "    void *name = qmemdup(obj->name, obj->namesize);\n    qtreetbl_unlock(tbl);\n    return name;\n}\n\n/**\n * qtreetbl->find_max",
+  "    void *name = strndup((const char *) obj->name, obj->namesize);\n    qtreetbl_unlock(tbl);\n    return name;\n}\n\n/**\n * qtreetbl->find_max",
+  'R2-bin', 'qtreetbl_find_min', 'binary key duplicated as a string')
